@@ -559,6 +559,7 @@ func RunMicro(spec MicroSpec) vx.Out {
 		x.checkStuck("after window")
 		x.pauseProbe()
 	}
+	x.checkDeletedFiles()
 	x.drain()
 	x.oracle()
 	obs += " | deliv=" + x.delivSummary()
@@ -669,6 +670,31 @@ func (x *microCtx) pauseProbe() {
 	}
 	for id, as := range x.deliv {
 		x.postWin[id] = len(as)
+	}
+}
+
+// checkDeletedFiles (C08): once a channel / topic has been deleted and does not exist (again)
+// at the idle point after the window, none of its disk-queue files is left behind.
+func (x *microCtx) checkDeletedFiles() {
+	if !(x.deleted || x.tdeleted) || x.spec.Eph {
+		return
+	}
+	ents, err := stdos.ReadDir(x.w.Dir)
+	if err != nil {
+		return
+	}
+	t := x.w.Topic(x.topic)
+	for _, e := range ents {
+		n := e.Name()
+		if !strings.Contains(n, ".diskqueue.") {
+			continue
+		}
+		if t == nil && (strings.HasPrefix(n, x.topic+".diskqueue.") || strings.HasPrefix(n, x.topic+":")) {
+			x.bad("C08 disk file of a deleted topic left behind", "topic %s was deleted and does not exist, yet %s is still in the data directory", x.topic, n)
+		}
+		if t != nil && x.chanObj() == nil && x.deleted && strings.HasPrefix(n, x.topic+":"+x.ch+".diskqueue.") {
+			x.bad("C08 disk file of a deleted channel left behind", "channel %s:%s was deleted and does not exist, yet %s is still in the data directory", x.topic, x.ch, n)
+		}
 	}
 }
 
